@@ -3,7 +3,13 @@
 # copy of /repo and runs the quick checks of the given properties against it (VERIF_REPO).
 ID=$1; shift
 S=/tmp/seedrun-$ID
-rm -rf $S; rsync -a --exclude .git --exclude sipproxy /repo/ $S/
+rm -rf $S
+if [ -f /verif/seeded/$ID/base ]; then
+  # the change was written against an earlier commit of /repo (a later fix: commit rewrote the lines it touches)
+  mkdir -p $S; git -C /repo archive $(cat /verif/seeded/$ID/base) | tar -x -C $S
+else
+  rsync -a --exclude .git --exclude sipproxy /repo/ $S/
+fi
 (cd $S && patch -p1 -s < /verif/seeded/$ID/patch.diff) || { echo "patch does not apply"; exit 2; }
 for P in "$@"; do
   VERIF_REPO=$S VERIF_EVIDENCE_DIR=/tmp/seed-evidence /verif/check $P > /tmp/seedrun-$ID-$P.out 2>/dev/null; RC=$?
